@@ -14,7 +14,7 @@ import common
 PROP = "C09"
 HEADER = "From Coq Require Import ZArith List.\nImport ListNotations.\nFrom IBL.C09 Require Import Run."
 TRUSTED = [
-    "Coq 8.16.1 kernel + vm_compute (no native_compute); the 24 theorems of Props.v: Closed under the global context "
+    "Coq 8.16.1 kernel + vm_compute (no native_compute); the 25 theorems of Props.v: Closed under the global context "
     "(enforced by the check); the 2 rounding-budget theorems of PropsR.v use the standard library's real numbers "
     "(ClassicalDedekindReals.sig_forall_dec, FunctionalExtensionality.functional_extensionality_dep)",
     "IEEE standard model (each float32 / float64 operation within 2^-24 / 2^-53 relative, no underflow) as explicit "
